@@ -26,7 +26,7 @@ ASSUMPTIONS = [
 ]
 
 ROOT = os.path.dirname(os.path.dirname(os.path.dirname(os.path.abspath(__file__))))
-ALPHABET = ["finA", "finB", "trig_exact", "trig_rounded", "cat", "cat_transformed", "ifs", "inv", "inv9", "fail", "sens"]
+ALPHABET = ["finA", "finB", "trig_exact", "trig_rounded", "trig_lag", "cat", "cat_transformed", "ifs", "inv", "inv9", "fail", "sens"]
 PERMS = ["perm%d" % i for i in range(6)]
 
 
@@ -66,7 +66,7 @@ def cases(tier, seed):
     for a, b in itertools.product(ALPHABET, repeat=2):
         out.append({"input": {"kind": "history", "history": [a, b], "hashseed": 0}})
     if tier != "quick":
-        small = ["finA", "trig_exact", "trig_rounded", "cat_transformed", "ifs", "inv9", "fail"]
+        small = ["finA", "trig_exact", "trig_rounded", "trig_lag", "cat_transformed", "ifs", "inv9", "fail"]
         for h in itertools.product(small, repeat=3):
             out.append({"input": {"kind": "history", "history": list(h), "hashseed": 0}})
     return out
